@@ -244,6 +244,14 @@ class C20(Harness):
                 r = red.make_reduction(Reg(), strategy=strat, window_length=1)
                 r.fit(good, fh=fh1)
                 out[strat] = attempt(lambda r=r: r.predict(fh2))
+                # the same through the updating entry points: a splitter / an argument carrying the other horizon
+                later = pd.Series(list(inp["y"]), index=pd.RangeIndex(s0 + 4, s0 + 8))
+                r2 = red.make_reduction(Reg(), strategy=strat, window_length=1)
+                r2.fit(good, fh=fh1)
+                out[strat + ".update_predict"] = attempt(lambda r2=r2: r2.update_predict(later, sp.SlidingWindowSplitter(fh=fh2, window_length=1, start_with_window=False), update_params=False))
+                r3 = red.make_reduction(Reg(), strategy=strat, window_length=1)
+                r3.fit(good, fh=fh1)
+                out[strat + ".update_predict_single"] = attempt(lambda r3=r3: r3.update_predict_single(later.iloc[:1], fh2, update_params=False))
             s = STK([("a", Member(p=1))], final_regressor=Reg())
             s.fit(good, fh=fh1)
             out["stacking"] = attempt(lambda: s.predict(fh2))
